@@ -15,6 +15,7 @@ pub async fn run(op: &str, a: &[String]) -> Option<Vec<String>> {
     Some(match op {
         "term" => term(a).await,
         "drop.handles" => drop_handles(a).await,
+        "answer.late" => answer_late(a).await,
         "ctrl.cut" => ctrl_cut(a).await,
         "rules" => rules(a).await,
         "wire.record" => wire_record(a).await,
@@ -291,6 +292,83 @@ const TERM_FIELDS: [&str; 10] = [
     "held_write",
     "peer_close",
 ];
+
+// ---------------------------------------------------------------------------------------------
+// answer.late  rt how code reasonhex answer
+//
+// The connection ends after the server application has got the session request and before it
+// answers it: the answer (`accept` / `accept_hdrs` / `forbidden` / `not_found`) must fail naming
+// the actual cause. `how`: `quic_close` (the peer closes with code and reason), `drop` (the peer
+// drops its connection: QUIC's implicit close, code 0). obs: `answer=<ok|error form|timeout>`.
+
+async fn answer_late(a: &[String]) -> Vec<String> {
+    let how = arg(a, 1).to_string();
+    let code = arg(a, 2).parse::<u64>().unwrap_or(0);
+    let reason = unhex_lenient(arg(a, 3));
+    let answer = arg(a, 4).to_string();
+    let fail = |e: String| vec!["answer=-".to_string(), format!("err={e}")];
+    let rt = match TestRt::new(arg(a, 0)) {
+        Ok(rt) => rt,
+        Err(e) => return fail(e),
+    };
+    let (sep, port) = match endpoints::server(&rt).await {
+        Ok(x) => x,
+        Err(e) => return fail(e),
+    };
+    let sep2 = sep.clone();
+    let request = rt.spawn(async move { endpoints::next_request(&sep2, STEP_MS).await });
+    // the raw peer: SETTINGS and the CONNECT request, no waiting for an answer
+    let mut client = match RawClient::connect(port, &RawOpts::default()).await {
+        Ok(c) => c,
+        Err(e) => return fail(format!("raw:{e}")),
+    };
+    if let Err(e) = client.open_control(&wire::std_settings_frame()).await {
+        return fail(format!("raw:{e}"));
+    }
+    if let Err(e) = client.send_request(&wire::std_request_frame()).await {
+        return fail(format!("raw:{e}"));
+    }
+    let request = match request.await {
+        Ok(endpoints::Incoming::Request(r)) => r,
+        Ok(endpoints::Incoming::Error(e)) => return fail(format!("request:{}", canon::conn_err(&e))),
+        Ok(endpoints::Incoming::Timeout) => return fail("request:timeout".into()),
+        Err(_) => return fail("request:join".into()),
+    };
+    // the end of the connection, well before the answer
+    match how.as_str() {
+        "quic_close" => match quinn::VarInt::from_u64(code) {
+            Ok(c) => client.conn.close(c, &reason),
+            Err(_) => return fail("bad_code".into()),
+        },
+        _ => drop(client),
+    }
+    tokio::time::sleep(ms(300)).await;
+    let task = rt.spawn(async move {
+        let r = match answer.as_str() {
+            "accept" => bounded(request.accept()).await.map(|r| r.map(|c| drop(c))),
+            "accept_hdrs" => bounded(request.accept_with_headers([("x-late", "1")])).await.map(|r| r.map(|c| drop(c))),
+            "forbidden" => {
+                bounded(request.forbidden()).await;
+                return "sent".to_string();
+            }
+            _ => {
+                bounded(request.not_found()).await;
+                return "sent".to_string();
+            }
+        };
+        match r {
+            None => "timeout".to_string(),
+            Some(Ok(())) => "ok".to_string(),
+            Some(Err(e)) => canon::conn_err(&e),
+        }
+    });
+    let v = match joined(task).await {
+        Ok(v) => v,
+        Err(t) => t,
+    };
+    drop(sep);
+    vec![format!("answer={v}")]
+}
 
 fn term_fail(e: String) -> Vec<String> {
     let mut v: Vec<String> = TERM_FIELDS.iter().map(|f| format!("{f}=-")).collect();
@@ -773,8 +851,16 @@ async fn ctrl_cut(a: &[String]) -> Vec<String> {
         "response" => wire::headers_frame(&[(":status", "200")]),
         "grease_ctrl" | "grease_sess" => grease.clone(),
         "capsule" => close_capsule(0x0102_0304, b"bye"),
+        // a complete ignorable frame and the capsule behind it: a cut inside the capsule leaves
+        // its head in the same delivery as the frame before it
+        "grease_capsule" => {
+            let mut b = grease.clone();
+            b.extend(close_capsule(0x0102_0304, b"bye"));
+            b
+        }
         _ => return cut_obs("-".into(), "-".into(), 0, Some("bad_target".into())),
     };
+    let is_capsule = target == "capsule" || target == "grease_capsule";
     let len = bytes.len();
     let fail = |e: String| cut_obs("-".into(), "-".into(), len, Some(e));
     let meaningful = match target.as_str() {
@@ -787,7 +873,7 @@ async fn ctrl_cut(a: &[String]) -> Vec<String> {
     }
 
     // ---- targets on an established session
-    if target == "grease_sess" || target == "capsule" {
+    if target == "grease_sess" || is_capsule {
         let Est {
             rt,
             ep,
@@ -802,7 +888,7 @@ async fn ctrl_cut(a: &[String]) -> Vec<String> {
         };
         let mut ctrl = peer.ctrl.take();
         let mut app: Option<tokio::task::JoinHandle<String>> = None;
-        if target == "capsule" {
+        if is_capsule {
             let c = conn.clone();
             app = Some(rt.spawn(async move { accept_until(&c, b"").await }));
         }
@@ -1871,6 +1957,25 @@ fn gen_c04(thorough: bool, rng: &mut Rng, emit: &mut dyn FnMut(&str, Vec<String>
 }
 
 fn gen_c09(thorough: bool, rng: &mut Rng, emit: &mut dyn FnMut(&str, Vec<String>)) {
+    // the connection ends between the session request and the application's answer
+    for (k, (how, code, reason)) in [
+        ("quic_close", 77u64, b"gone".to_vec()),
+        ("quic_close", 0, vec![]),
+        ("quic_close", 0x100, b"h3".to_vec()),
+        ("quic_close", (1 << 62) - 1, vec![0xc3, 0xa9]),
+        ("quic_close", rng.varint62(), utf8_reason(rng, false)),
+        ("drop", 0, vec![]),
+    ]
+    .into_iter()
+    .enumerate()
+    {
+        for (j, answer) in ["accept", "accept_hdrs", "forbidden"].iter().enumerate() {
+            if *answer == "forbidden" && k > 1 {
+                continue;
+            }
+            emit("answer.late", vec![s(RTS[(k + j) % 2]), s(how), s(code), hex(&reason), s(answer)]);
+        }
+    }
     let styles = [
         "drop_all",
         "local_close",
@@ -1938,13 +2043,14 @@ fn gen_c09(thorough: bool, rng: &mut Rng, emit: &mut dyn FnMut(&str, Vec<String>
 
 fn gen_c05(thorough: bool, _rng: &mut Rng, emit: &mut dyn FnMut(&str, Vec<String>)) {
     // (target, length of its byte string, sides)
-    let targets: [(&str, usize, &[&str]); 6] = [
+    let targets: [(&str, usize, &[&str]); 7] = [
         ("settings", wire::std_control_bytes().len(), &SIDES),
         ("request", wire::std_request_frame().len(), &["server"]),
         ("response", wire::headers_frame(&[(":status", "200")]).len(), &["client"]),
         ("grease_ctrl", 7, &SIDES),
         ("grease_sess", 7, &SIDES),
         ("capsule", close_capsule(0x0102_0304, b"bye").len(), &SIDES),
+        ("grease_capsule", 7 + close_capsule(0x0102_0304, b"bye").len(), &SIDES),
     ];
     let events = ["none", "datagram", "uni", "bi", "ctrlframe"];
     let mut k = 0usize;
@@ -1964,6 +2070,13 @@ fn gen_c05(thorough: bool, _rng: &mut Rng, emit: &mut dyn FnMut(&str, Vec<String
                 c
             };
             let mut cuts = cuts;
+            if target == "grease_capsule" {
+                // only cuts inside the capsule (the frame before it stays whole)
+                cuts.retain(|c| *c > 7);
+                cuts.extend([8, 9, 7 + (len - 7) / 2]);
+                cuts.sort_unstable();
+                cuts.dedup();
+            }
             // the whole element with the events right behind it
             cuts.push(len);
             for cut in cuts {
